@@ -1054,10 +1054,20 @@ pub enum AppearanceStreamEntry {
 }
 impl Object for AppearanceStreamEntry {
     fn from_primitive(p: Primitive, resolve: &impl Resolve) -> Result<Self> {
-        match p.resolve(resolve)? {
+        let id = match p {
+            Primitive::Reference(r) => Some(r),
+            _ => None
+        };
+        let p = p.resolve(resolve)?;
+        let decode = || match p {
             p @ Primitive::Dictionary(_) => Object::from_primitive(p, resolve).map(AppearanceStreamEntry::Dict),
             p @ Primitive::Stream(_) => Object::from_primitive(p, resolve).map(AppearanceStreamEntry::Single),
             p => Err(PdfError::UnexpectedPrimitive {expected: "Dict or Stream", found: p.get_debug_name()})
+        };
+        match id {
+            // the entries of a dictionary are entries again: not this one
+            Some(r) => resolve.with_loading(r, decode),
+            None => decode()
         }
     }
 }
